@@ -299,6 +299,11 @@ type VerifFullConfig struct {
 	WalDir   string // directory; the WAL file is <WalDir>/cs.wal/wal
 	WalImage []byte // if non-nil, written as the WAL file before opening it
 	Rec      *VerifRecorder
+	// Genesis, when set, replaces the built-in single-validator genesis (e.g. a shipped genesis file).
+	// It is used read-only except for what Genesis.ToBlock itself does to its Alloc map: pass a fresh
+	// object per node.
+	Genesis *genesis.Genesis
+	NoWAL   bool // keep the nilWAL (no crash/restart in this run)
 }
 
 type VerifFullParts struct {
@@ -367,7 +372,10 @@ func VerifBootFull(c VerifFullConfig) (n *VerifNode, err error) {
 	}()
 	logger := log.New()
 	addr := crypto.PubkeyToAddress(c.Key.PublicKey)
-	gen := VerifFullGenesis(addr, c.Funded)
+	gen := c.Genesis
+	if gen == nil {
+		gen = VerifFullGenesis(addr, c.Funded)
+	}
 	cache := &blockchain.CacheConfig{TrieCleanLimit: 16, TrieDirtyLimit: 16, TrieDirtyDisabled: c.Archive, TrieTimeLimit: 5 * time.Minute}
 	bc, err := blockchain.NewBlockChain(c.DB, cache, gen)
 	if err != nil {
@@ -410,6 +418,9 @@ func VerifBootFull(c VerifFullConfig) (n *VerifNode, err error) {
 	}
 	cs.SetEventBus(n.Bus)
 	n.CS = cs
+	if c.NoWAL {
+		return n, nil
+	}
 	// WAL: real BaseWAL on the given directory
 	walFile := cfg.WalFile()
 	if err := kos.EnsureDir(filepath.Dir(walFile), 0700); err != nil {
